@@ -119,3 +119,46 @@ func lastLines(s string, n int) string {
 	}
 	return s
 }
+
+// quickCanary runs the first must-fail entry of the self-test corpus: if the machinery no longer reports a
+// violation for a change known to break the property, the pass of the main run cannot be trusted (engine error).
+func quickCanary(id string, pc *PropConfig, kf *KFFile, seed int) int {
+	data, err := os.ReadFile(filepath.Join(verifDir, "selftest", id+".json"))
+	if err != nil {
+		return 0
+	}
+	var ms []Mutant
+	if json.Unmarshal(data, &ms) != nil {
+		return 0
+	}
+	for _, m := range ms {
+		if m.Expect != "violation" {
+			continue
+		}
+		full := filepath.Join("/repo", m.File)
+		src, err := os.ReadFile(full)
+		if err != nil || strings.Count(string(src), m.Old) != 1 {
+			fmt.Printf("canary %s: corpus out of date for %s (skipped)\n", m.Name, m.File)
+			return 0
+		}
+		mut := strings.Replace(string(src), m.Old, m.New, 1)
+		smtDir := filepath.Join(verifDir, "work", "smt", id+"-canary")
+		os.RemoveAll(smtDir)
+		os.MkdirAll(smtDir, 0o755)
+		res := runProperty(id, pc, "/repo", map[string][]byte{full: []byte(mut)}, kf.Findings, 10*time.Second, false, seed, smtDir)
+		os.RemoveAll(smtDir)
+		if len(res.Errors) > 0 || len(res.Missing) > 0 {
+			fmt.Printf("canary %s: engine error on the mutated tree (not counted)\n", m.Name)
+			return 0
+		}
+		for _, ob := range res.Obls {
+			if !ob.ExpectSat && ob.Result.Status != "unsat" {
+				fmt.Printf("canary %s: reported as expected (%s)\n", m.Name, ob.Name)
+				return 0
+			}
+		}
+		fmt.Printf("ENGINE ERROR: canary %s (a change known to break %s) was NOT reported: the check is vacuous\n", m.Name, id)
+		return 2
+	}
+	return 0
+}
